@@ -17,12 +17,14 @@ ulimit -s unlimited 2>/dev/null || true
 # -k: one property's broken file must not stop the others from building; every check verifies that the
 # .vo files of ITS dependency closure are present and newer than their sources (harness/common.py).
 rc=0
+# cores not already busy (load average), between 4 and 16
+J=$(awk '{b=int($1); n=16-b; if (n<4) n=4; if (n>16) n=16; print n}' /proc/loadavg 2>/dev/null || echo 8)
 if [ $# -gt 0 ]; then
   log=build_targets.log
-  timeout 1500 make -k -j16 "$@" > $log 2>&1 || rc=$?
+  timeout 1500 make -k -j${VERIF_MAKE_J:-$J} "$@" > $log 2>&1 || rc=$?
 else
   log=build.log
-  timeout 3000 make -k -j16 > $log 2>&1 || rc=$?
+  timeout 3000 make -k -j${VERIF_MAKE_J:-$J} > $log 2>&1 || rc=$?
 fi
 if [ $rc -ne 0 ]; then grep -B2 -A12 "^Error\|Error:" $log | head -60; fi
 exit 0
